@@ -121,6 +121,22 @@ func Parse(block []rune, pos int) (pt ParsedTokens, syntaxHighlighted string) {
 		ansiReset(block[i])
 	}
 
+	// endFunc vets a function name that ends without a space or colon, eg
+	// `foo|bar`, `foo;bar`, `{foo}`. trim is the number of runes of the token
+	// that ended it which are already part of the name (the `-` in `->`)
+	endFunc := func(trim int) {
+		pt.ExpectParam = false
+		if !readFunc {
+			return
+		}
+		readFunc = false
+		name := []rune(pt.FuncName)
+		if trim <= len(name) {
+			name = name[:len(name)-trim]
+		}
+		pt.Unsafe = isCmdUnsafe(string(name)) || pt.Unsafe
+	}
+
 	next := func(r rune) bool {
 		if i+1 < len(block) {
 			return block[i+1] == r
@@ -184,6 +200,8 @@ func Parse(block []rune, pos int) (pt ParsedTokens, syntaxHighlighted string) {
 				expectParam()
 				fallthrough
 			default:
+				// quoted and escaped function names aren't vetted
+				pt.Unsafe = pt.Unsafe || pt.ExpectFunc
 				pt.Escaped = true
 				ansiColour(hlEscaped, block[i])
 			}
@@ -203,6 +221,7 @@ func Parse(block []rune, pos int) (pt ParsedTokens, syntaxHighlighted string) {
 				expectParam()
 				fallthrough
 			default:
+				pt.Unsafe = pt.Unsafe || pt.ExpectFunc
 				pt.QuoteSingle = true
 				ansiColour(hlSingleQuote, block[i])
 			}
@@ -222,18 +241,31 @@ func Parse(block []rune, pos int) (pt ParsedTokens, syntaxHighlighted string) {
 				expectParam()
 				fallthrough
 			default:
+				pt.Unsafe = pt.Unsafe || pt.ExpectFunc
 				pt.QuoteDouble = true
 				ansiColour(hlDoubleQuote, block[i])
 			}
 
 		case '(':
 			pt.Loc = i
+			if !pt.Escaped && !pt.QuoteSingle && !pt.QuoteDouble && pt.QuoteBrace == 0 && (i == 0 || block[i-1] != '%') {
+				// outside of `%(...)`, parenthesis can hold expressions and
+				// function calls, both of which get executed
+				pt.Unsafe = true
+			}
 			switch {
 			case pt.Escaped:
 				escaped()
 			case pt.QuoteSingle, pt.QuoteDouble:
 				*pt.pop += `(`
 				syntaxHighlighted += string(block[i])
+			case readFunc:
+				// function call syntax, eg `foo(bar)`
+				endFunc(0)
+				pt.ExpectFunc = false
+				ansiColour(hlBraceQuote, block[i])
+				pt.QuoteBrace++
+				expectParam()
 			case pt.ExpectFunc:
 				pt.ExpectFunc = false
 				ansiColour(hlBraceQuote, block[i])
@@ -270,6 +302,7 @@ func Parse(block []rune, pos int) (pt ParsedTokens, syntaxHighlighted string) {
 			case pt.QuoteBrace == 0:
 				ansiColour(hlError, block[i])
 				pt.QuoteBrace--
+				pt.Unsafe = true
 			case pt.ExpectParam:
 				expectParam()
 				fallthrough
@@ -318,9 +351,15 @@ func Parse(block []rune, pos int) (pt ParsedTokens, syntaxHighlighted string) {
 			case pt.ExpectFunc:
 				pt.Loc = i
 				syntaxHighlighted += string(block[i])
+				*pt.pop = `=`
+				readFunc = true
 			default:
 				pt.Loc = i
 				syntaxHighlighted += string(block[i])
+				if pt.ExpectParam && len(pt.Parameters) == 0 {
+					// `name = value` is an assignment
+					pt.Unsafe = true
+				}
 				pt.ExpectParam = true
 			}
 
@@ -343,6 +382,8 @@ func Parse(block []rune, pos int) (pt ParsedTokens, syntaxHighlighted string) {
 				pt.Unsafe = isCmdUnsafe(pt.FuncName) || pt.Unsafe
 				ansiReset(block[i])
 			default:
+				// a cast, eg `:str foo`
+				pt.Unsafe = true
 				syntaxHighlighted += string(block[i])
 			}
 
@@ -359,6 +400,7 @@ func Parse(block []rune, pos int) (pt ParsedTokens, syntaxHighlighted string) {
 				if pos != 0 && pt.Loc >= pos {
 					return
 				}
+				endFunc(1)
 				pt.Loc = i
 				pt.LastFlowToken = i - 1
 				pt.ExpectFunc = true
@@ -398,12 +440,15 @@ func Parse(block []rune, pos int) (pt ParsedTokens, syntaxHighlighted string) {
 				*pt.pop += `>`
 				pt.Loc = i
 				syntaxHighlighted += ">"
+				pt.Unsafe = pt.Unsafe || next('>')
 			case pt.AngledBracket:
 				*pt.pop += `>`
 				pt.Loc = i
 				syntaxHighlighted += ">" + codes.Reset
 
 			default:
+				// `>>` doesn't need a space before it
+				pt.Unsafe = pt.Unsafe || next('>')
 				pt.Loc = i
 				syntaxHighlighted += ">"
 			}
@@ -420,6 +465,7 @@ func Parse(block []rune, pos int) (pt ParsedTokens, syntaxHighlighted string) {
 				if pos != 0 && pt.Loc >= pos {
 					return
 				}
+				endFunc(0)
 				pt.LastFlowToken = i
 				pt.ExpectFunc = true
 				pt.SquareBracket = false
@@ -464,6 +510,7 @@ func Parse(block []rune, pos int) (pt ParsedTokens, syntaxHighlighted string) {
 				if pos != 0 && pt.Loc >= pos {
 					return
 				}
+				endFunc(0)
 				pt.LastFlowToken = i
 				pt.ExpectFunc = true
 				pt.SquareBracket = false
@@ -474,6 +521,10 @@ func Parse(block []rune, pos int) (pt ParsedTokens, syntaxHighlighted string) {
 				ansiChar(hlPipe, '&', '&')
 				ansiStartFunction()
 				i++
+			case pt.ExpectFunc && !readFunc:
+				*pt.pop = string(block[i])
+				readFunc = true
+				syntaxHighlighted += string(block[i])
 			default:
 				*pt.pop += string(block[i])
 				syntaxHighlighted += string(block[i])
@@ -491,6 +542,7 @@ func Parse(block []rune, pos int) (pt ParsedTokens, syntaxHighlighted string) {
 				if pos != 0 && pt.Loc >= pos {
 					return
 				}
+				endFunc(0)
 				pt.LastFlowToken = i
 				pt.ExpectFunc = true
 				pt.SquareBracket = false
@@ -514,6 +566,7 @@ func Parse(block []rune, pos int) (pt ParsedTokens, syntaxHighlighted string) {
 				if pos != 0 && pt.Loc >= pos {
 					return
 				}
+				endFunc(0)
 				pt.LastFlowToken = i
 				pt.Unsafe = true
 				pt.ExpectFunc = true
@@ -538,6 +591,10 @@ func Parse(block []rune, pos int) (pt ParsedTokens, syntaxHighlighted string) {
 				if pos != 0 && pt.Loc >= pos {
 					return
 				}
+				endFunc(0)
+				// these are only operators inside expressions. In a statement
+				// what follows isn't a new command
+				pt.Unsafe = true
 				pt.LastFlowToken = i
 				pt.ExpectFunc = true
 				pt.SquareBracket = false
@@ -552,6 +609,7 @@ func Parse(block []rune, pos int) (pt ParsedTokens, syntaxHighlighted string) {
 				if pos != 0 && pt.Loc >= pos {
 					return
 				}
+				endFunc(0)
 				pt.LastFlowToken = i
 				pt.ExpectFunc = true
 				pt.SquareBracket = false
@@ -563,6 +621,8 @@ func Parse(block []rune, pos int) (pt ParsedTokens, syntaxHighlighted string) {
 				ansiChar(hlPipe, block[i])
 				syntaxHighlighted += hlFunction
 			default:
+				// the real parser doesn't need a space before the `?` pipe
+				pt.Unsafe = true
 				*pt.pop += `?`
 				syntaxHighlighted += "?"
 			}
@@ -576,6 +636,10 @@ func Parse(block []rune, pos int) (pt ParsedTokens, syntaxHighlighted string) {
 				*pt.pop += `{`
 				syntaxHighlighted += string(block[i])
 			default:
+				// a brace where a function name is expected, or directly
+				// after one, is part of that name as far as murex is concerned
+				pt.Unsafe = pt.Unsafe || pt.ExpectFunc
+				endFunc(0)
 				pt.NestedBlock++
 				pt.ExpectFunc = true
 				pt.PipeToken = PipeTokenNone
@@ -597,11 +661,13 @@ func Parse(block []rune, pos int) (pt ParsedTokens, syntaxHighlighted string) {
 				*pt.pop += `}`
 				syntaxHighlighted += "}"
 			default:
+				endFunc(0)
 				if pt.NestedBlock >= 1 {
 					i := pt.NestedBlock % len(hlBlock)
 					syntaxHighlighted += hlBlock[i] + "}" + codes.Reset
 				} else {
 					syntaxHighlighted += hlError + "}"
+					pt.Unsafe = true
 				}
 				pt.NestedBlock--
 				if pt.NestedBlock == 0 {
@@ -674,7 +740,13 @@ func Parse(block []rune, pos int) (pt ParsedTokens, syntaxHighlighted string) {
 			case pt.Escaped:
 				escaped()
 			case pt.QuoteSingle, next(' '), next('\t'):
-				*pt.pop += string(block[i])
+				if pt.ExpectFunc && !readFunc && !pt.QuoteSingle {
+					// a lone `@` where a function name is expected is that name
+					*pt.pop = string(block[i])
+					readFunc = true
+				} else {
+					*pt.pop += string(block[i])
+				}
 				syntaxHighlighted += string(block[i])
 			case pt.ExpectParam:
 				expectParam()
